@@ -1,5 +1,5 @@
 (* C15 — the grammar compiler always answers: code, or an error. *)
-From PegV Require Import Utf8 State Syntax Fields FieldsFacts GetFieldsFacts Literals Model Compile Totality Restrictions Extracted.
+From PegV Require Import Utf8 State Syntax Fields FieldsFacts GetFieldsFacts TypesFacts Literals Model Compile Totality Restrictions Tmpl Extracted.
 
 Theorem C15_facts :
   insens_guard Extracted.rcfg = true /\ Extracted.x_leftrec_needs_clone = true /\
@@ -106,3 +106,21 @@ Proof.
   destruct (hex_digit c1) as [d1|]; [|congruence]. rewrite H2, Hs. reflexivity.
 Qed.
 Print Assumptions C15_invalid_code_points.
+
+(* The panic sites inside the code templates (field.rs: two `expect`s; choice.rs:
+   `panic!("Outer field .. cannot be One if inner does not exist")`; sequence.rs:
+   `assert_eq!(field.arity, Arity::Multiple)`) are unreachable: walking any rule
+   body the way the generator does, under the descriptors get_fields computed for
+   that body, none of them fires - for every grammar, at every depth, through
+   includes. *)
+Theorem C15_templates_never_panic : forall (g : grammar) (F : nat) (e : expr) (rf : list fdesc),
+  get_fields Extracted.fcfg F g e = GFOk rf ->
+  forall T, tmpl_ok Extracted.fcfg g F T rf e = true.
+Proof.
+  intros g F e rf G T.
+  apply (tmpl_never_panics Extracted.fcfg (proj1 (proj2 (proj2 (proj2 (proj2 C15_facts))))) g F rf).
+  - exact (gf_nodup Extracted.fcfg g F e rf G).
+  - exists rf. split; [exact G|apply sub_refl].
+  - exists rf. split; [exact G|apply tsub_refl].
+Qed.
+Print Assumptions C15_templates_never_panic.
